@@ -3,7 +3,8 @@
    tokeniser specification `munch` (Automata/Tokenizer.v; C03 proves that feeding the real
    decode loops with ANY partition of the stream into reads yields exactly `munch`).
 
-   Unlike Decoder/Payload.v (C02, which abstracts colours, faces, termcap strings away and
+   This file does not depend on Decoder/Payload.v (the few shared notions -- UTF-8 validity and
+   decoding -- are defined here).  Unlike Decoder/Payload.v (C02, which abstracts colours, faces, termcap strings away and
    tracks panics), this model keeps everything property C04 speaks about: key names and
    modifier masks, coordinates, numbers, colours, strings.  Slices are total here (`sl`):
    that the real slicing never panics on accepted strings is C02's theorem.
@@ -12,7 +13,8 @@
    longer ones are clamped by the code, outside C04's domain). *)
 From Coq Require Import List NArith Bool.
 From SNT Require Import Base.Dec10 Render.FaceModel Decoder.Sgr.
-From SNT Require Import Automata.DfaData Automata.Tokenizer Decoder.Payload.
+From SNT Require Import Encoder.FaceEnc.
+From SNT Require Import Automata.DfaData Automata.Tokenizer.
 Import ListNotations.
 Local Open Scope N_scope.
 
@@ -51,6 +53,60 @@ Fixpoint filter_map {A B} (f : A -> option B) (l : list A) : list B :=
   match l with
   | [] => []
   | a :: r => match f a with Some b => b :: filter_map f r | None => filter_map f r end
+  end.
+
+(* std::str::from_utf8(..).is_ok() (RFC 3629 well-formedness: no overlongs, no surrogates, <= U+10FFFF) *)
+Definition cont (b : N) : bool := (128 <=? b) && (b <=? 191).
+Fixpoint utf8_valid_aux (fuel : nat) (l : list N) : bool :=
+  match fuel with
+  | O => match l with [] => true | _ => false end
+  | S f =>
+      match l with
+      | [] => true
+      | b0 :: r0 =>
+          if b0 <? 128 then utf8_valid_aux f r0
+          else if (194 <=? b0) && (b0 <=? 223) then
+            match r0 with b1 :: r1 => cont b1 && utf8_valid_aux f r1 | _ => false end
+          else if (224 <=? b0) && (b0 <=? 239) then
+            match r0 with
+            | b1 :: b2 :: r2 =>
+                (if b0 =? 224 then (160 <=? b1) && (b1 <=? 191)
+                 else if b0 =? 237 then (128 <=? b1) && (b1 <=? 159)
+                 else cont b1)
+                && cont b2 && utf8_valid_aux f r2
+            | _ => false
+            end
+          else if (240 <=? b0) && (b0 <=? 244) then
+            match r0 with
+            | b1 :: b2 :: b3 :: r3 =>
+                (if b0 =? 240 then (144 <=? b1) && (b1 <=? 191)
+                 else if b0 =? 244 then (128 <=? b1) && (b1 <=? 143)
+                 else cont b1)
+                && cont b2 && cont b3 && utf8_valid_aux f r3
+            | _ => false
+            end
+          else false
+      end
+  end.
+Definition utf8_valid (l : list N) : bool := utf8_valid_aux (length l) l.
+
+(* utf8_decode (decoder.rs): the code point assembled from a matched 1..4 byte slice *)
+Definition utf8_code (slice : list N) : option N :=
+  match slice with
+  | [] => None
+  | first :: tail =>
+      let start :=
+        match length slice with
+        | 1%nat => Some (N.land first 127)
+        | 2%nat => Some (N.land first 31)
+        | 3%nat => Some (N.land first 15)
+        | 4%nat => Some (N.land first 7)
+        | _ => None
+        end in
+      match start with
+      | Some c => Some (fold_left (fun code b => N.lor (N.shiftl code 6) (N.land b 63)) tail c)
+      | None => None
+      end
   end.
 
 Definition numbers_decode (data : list N) (sep : N) : list N :=
@@ -379,9 +435,9 @@ Definition dec_termsize (data : list N) : option tev :=
 
 (* ---- 12 UTF8Matcher(Printable) mapped to Key(Char c) ---- *)
 Definition dec_utf8 (data : list N) : option tev :=
-  match Payload.utf8_decode data with
-  | Outcome.Ok (Some c) => Some (EKey (KChar c) 0)
-  | _ => None
+  match utf8_code data with
+  | Some c => if scalar_ok c then Some (EKey (KChar c) 0) else None     (* char::from_u32 *)
+  | None => None
   end.
 
 (* ---- 13 BracketedPasteMatcher ---- *)
